@@ -27,6 +27,7 @@ def handle (line : String) : String :=
     | some s => showLex (lex Gen.lexTables s)
     | none => "bad-hex"
   | "filter" :: rest => Wire.runFilter rest
+  | "val" :: rest => Wire.runVal rest
   | "bans" :: rest => Wire.runBans rest
   | "cache" :: rest => Wire.runCache rest
   | "run" :: rest =>
